@@ -1,0 +1,28 @@
+//go:build verif
+
+package xxhash3
+
+import (
+	"github.com/songzhibin97/go-baseutils/sys/cpu"
+	"github.com/songzhibin97/go-baseutils/sys/xxhash3/internal/xxh3_raw"
+)
+
+// Verification hooks (build tag verif only; add-only, nothing here is reachable from a normal build).
+
+// VerifSetBackend overrides the accumulation back end selection (package variables avx2, sse2) and
+// returns a function that restores the previous values.
+func VerifSetBackend(useAVX2, useSSE2 bool) (restore func()) {
+	oa, os := avx2, sse2
+	avx2, sse2 = useAVX2, useSSE2
+	return func() { avx2, sse2 = oa, os }
+}
+
+// VerifBackend reports the current selection.
+func VerifBackend() (useAVX2, useSSE2 bool) { return avx2, sse2 }
+
+// VerifCPU reports what the CPU supports (forcing an unsupported back end would fault).
+func VerifCPU() (hasAVX2, hasSSE2 bool) { return cpu.X86.HasAVX2, cpu.X86.HasSSE2 }
+
+// Re-exports of the internal reference port.
+func VerifRawHash(b []byte) uint64       { return xxh3_raw.Hash(b) }
+func VerifRawHash128(b []byte) [2]uint64 { return xxh3_raw.Hash128(b) }
